@@ -34,6 +34,30 @@ CLAIMED = {
          "Exploration: seeded bursts and sequences of 1..32 callers, 0..5 callbacks, several SkipIntervals; accepted calls run all callbacks once in order, rejected run none, groups never interleave, consecutive accepted calls are >= SkipInterval apart (bracketing inequality), and a call that begins >= SkipInterval after every earlier call returned must be accepted.",
          "Only bracketing inequalities on the monotonic clock are used, so load cannot cause false alarms (it only reduces detection power).",
          "2/C17"),
+ "C01": ("online monitor of builder [entry,exit] intervals over steered (seeded scheduler at every call-out) and free-running stress executions of the real Failover",
+         "Exploration: thousands of seeded schedules of 2..12 concurrent Gets over 1..3 keys across the configuration product, both APIs, fault injection and caller misbehaviour; an online monitor flags any instant with two builders active for one key. Evidence counts contended runs and distinct schedule signatures.",
+         "Interleavings inside library critical sections are not explored (atomic by construction); the steered executor uses runtime.Stack statuses and only ever yields 'inconclusive' on malfunction.",
+         "2/C01"),
+ "C02": ("offline provenance checker over recorded event logs with unique tokens; backend fault injection at every call index in turn",
+         "Exploration with embedded fault enumeration: every value/error returned by Get must be a token/error of the same key that was pre-populated, built (and finished before the return) or injected; one third of the cases are re-run with a backend failure at every call index.",
+         "Token uniqueness per run; harness builders never produce zero values.",
+         "2/C02"),
+ "C03": ("complete enumeration of the finite decision table against the real code, judged by documented outcome classes plus differential agreement across APIs/backends",
+         "Exhaustive over the table stated in the property (168 consistent cells x 3 pairings x repetitions): result class, builder invocation count/timing, backend content, failure cache and lock state after quiescence.",
+         "Expected classes are transcribed from README/FailoverConfig docs (c03_table.go); for 'failure cached + stale value' both documented readings are accepted.",
+         "2/C03"),
+ "C04": ("logical-deadlock detection under the steered executor, lock-table invariant hook at quiescence, black-box follow-up Gets, write-placement checker over the event log",
+         "Exploration: same schedule families as C01 with callers cancelling contexts and rewriting key buffers after return, failing builders and rejected backend writes; a run is refuted by a logical deadlock, a lock left after quiescence, a build result written under another key, or a follow-up Get that cannot rebuild.",
+         "Unbounded liveness is restated as deadlock freedom on explored schedules and bounded progress in free mode.",
+         "2/C04"),
+ "C05": ("event-log monitors (no build after stored success with SyncRead; no build within 0.9*FailedUpdateTTL of a failure) plus sequential executable model",
+         "Exploration: concurrent SyncRead bursts (steered/free), sequential scripts with the failing invocation at every position x FailedUpdateTTL {default,1h,-1} judged against an executable model, failure-cache expiry bracket and rebuild after simulated elapse (Errors.ExpireAll).",
+         "Suppression is only judged for events whose monotonic timestamps are within 0.9*FailedUpdateTTL of the failure; SkipRead is documented to bypass cache reads including the failure cache.",
+         "2/C05"),
+ "C06": ("context observation inside harness builders/backend wrapper vs. reference TTL fold; detached-context assertions for background builds; stored expiry vs. C10 interval",
+         "Exploration: seeded caller TTL cells and builder WithTTL update lists over all Get paths (cold, sync update, background update, waiter), cancelled/pre-cancelled/deadlined callers, SkipRead on fresh entries.",
+         "Without a caller TTL cell no propagation is promised: backend default or builder minimum accepted.",
+         "2/C06"),
 }
 
 NOT_YET = "check not built yet in this round (planned, see DESIGN.md section 2)"
